@@ -406,12 +406,40 @@ func validText(r *rng.R, tagged bool, k int) (string, string) {
 	g := gen.New(r, gen.Profile{MaxDepth: 1 + r.Intn(3), Vars: r.Bool(), Ellipsis: r.Chance(1, 4), Budget: 100, MaxKids: 3, MaxElems: 4})
 	var toks []smltext.Tok
 	var names []string
+	var prev *ref.Msg
 	for q := 0; q < k; q++ {
 		var it *ref.Item
 		if !r.Chance(1, 6) {
 			it = g.Tree()
 		}
 		m := g.Msg(it, false)
+		if r.Chance(1, 4) {
+			m.Dir = "" // an omitted direction is a warning, not an error
+		}
+		if prev != nil && r.Chance(1, 3) {
+			// a header that stands in a relation to the one before it: the reply to that primary, the same code again, the
+			// next primary of the stream - with every combination of given and omitted directions
+			m.Stream = prev.Stream
+			switch r.Intn(3) {
+			case 0:
+				if prev.Function < 255 {
+					m.Function = prev.Function + 1
+				}
+			case 1:
+				m.Function = prev.Function
+			default:
+				if prev.Function < 254 {
+					m.Function = prev.Function + 2
+				}
+			}
+			if m.Function%2 == 0 && m.W == 1 {
+				m.W = r.Intn(2) * 2
+			}
+			if r.Bool() {
+				m.Dir = prev.Dir
+			}
+		}
+		prev = m
 		if tagged {
 			m.Name = fmt.Sprintf("tag_%d_%d", q, r.Intn(1000))
 		}
